@@ -988,8 +988,8 @@ func main() {
 					{"onestate", "docIndex.snapshot()"}, {"keys", "docIndex.Keys()"}, {"decode", "o.docOpts.Unmarshal("}})
 		}},
 		{"GenLogQuery", func() string {
-			return effectOrder(repo, "stores/eventlogstore/log.go", "query", "logQueryOrder", [][2]string{
-				{"operations", "operation.ParseOperation(e)"}, {"window", "o.read("}})
+			return effectOrder(repo, "stores/eventlogstore/log.go", "read", "logQueryOrder", [][2]string{
+				{"bound", "e.GetHash().String() == hash.String()"}, {"operations", "operation.ParseOperation(e)"}, {"collect", "append(result, e)"}})
 		}},
 		{"GenNewPeer", func() string {
 			return callArgIs(repo, bs, "pubSubChanListener", "NewEventNewPeer", 0, "b.Address()", "newPeerEventHasAddress",
